@@ -33,6 +33,10 @@ def attribute(f, trace):
             props.add("C05")
         else:
             props.add("C03")
+        if f["where"] == "end" and "exch" in kinds:
+            # the end-of-trial bookkeeping of an exchange trial (revert / save, label notification) failed: the system is
+            # not restored (C03) and atoms, labels and the particle counter are left inconsistent (C05)
+            props.update({"C03", "C05"})
         return props
     if kind == "protocol":
         return {"C20"}
